@@ -217,6 +217,30 @@ def r4b_error_flow(rule, root=None):
         rule.lost("the two `let (pos, err) = ..solve()` sites (leaf, try_collapse) in octree.rs (found %d)" % n)
 
 
+def r5_model_space(rule, root=None):
+    """the evaluators see the cell through `world_to_model` as a projective map (Transformable divides by w);
+    the finished vertices must go back through the same map, `transform_point`, which divides by w too - a
+    bare matrix product keeps w and scales every vertex by it when the matrix has a perspective row"""
+    writes = []
+    for name in ("build", "build_inner", "build_inner_mt"):
+        fn = A.find_fn(OCT, name, self_ty="Octree", root=root)
+        body = A.inline_helpers(fn)
+        for a in A.find(body, "Assign"):
+            if str(txt(a["left"])).endswith(".pos") and "world_to_model" in str(txt(A.value_view(body))):
+                writes.append((fn, body, a))
+    if not writes:
+        rule.lost("the loop that moves the finished vertices back to model space (`v.pos = ..world_to_model..`)")
+        return
+    for fn, body, a in writes:
+        from .. import effects as E
+
+        val = E.canon(a["right"], E.env_at(body, a))
+        if "world_to_model.transform_point(" in val:
+            rule.ok("vertices return to model space through world_to_model.transform_point (with the homogeneous divide)", file=OCT, line=a["ln"])
+        elif "world_to_model" in val:
+            rule.bad("model-space|divide", "Octree::%s moves a vertex with `%s`: a matrix product without the division by w, while the evaluators place the surface with the full projective map - under a perspective transform every vertex is scaled by its own w" % (fn["name"], val[:80]), A.where(fn, a))
+
+
 def run(ctx):
     r = ctx.rule("R1", "dual walk: every recursive face/edge call is geometrically consistent on the sub-cell lattice; frames are right-handed rotations", 39)
     ctx.guarded(r, DW.r1_dual_walk)
@@ -228,3 +252,5 @@ def run(ctx):
     ctx.guarded(r, r4_collapse_guards)
     r = ctx.rule("R4b", "every solved QEF vertex records its error, which is what the collapse test compares", 2)
     ctx.guarded(r, r4b_error_flow)
+    r = ctx.rule("R5", "finished vertices go back to model space through the same projective map the evaluators used", 1)
+    ctx.guarded(r, r5_model_space)
